@@ -95,6 +95,41 @@ def all_values(t):
     raise ValueError(t)
 
 
+def regroup(t, v):
+    """a DIFFERENT type (and the corresponding value) with the same leaves in the same order but another tuple grouping, or None:
+    (a, b, c) -> ((a, b), c);  ((a, b), c) -> ((a, b, c),);  (a, b) -> ((a,), b);  recursively inside sums / options / arrays"""
+    k = t[0]
+    if k == "T":
+        xs, vs = list(t[1]), list(v[1])
+        if len(xs) >= 3:
+            return ("T", (("T", tuple(xs[:-1])), xs[-1])), ("t", (("t", tuple(vs[:-1])), vs[-1]))
+        if len(xs) == 2 and xs[0][0] == "T" and len(xs[0][1]) >= 1:
+            return ("T", (("T", tuple(xs[0][1]) + (xs[1],)),)), ("t", (("t", tuple(vs[0][1]) + (vs[1],)),))
+        if len(xs) == 2:
+            return ("T", (("T", (xs[0],)), xs[1])), ("t", (("t", (vs[0],)), vs[1]))
+        if len(xs) == 1:
+            r = regroup(xs[0], vs[0])
+            if r:
+                return ("T", (r[0],)), ("t", (r[1],))
+        return None
+    if k == "O":
+        if v[0] == "s":
+            r = regroup(t[1], v[1])
+            return (("O", r[0]), ("s", r[1])) if r else None
+        return None
+    if k == "E":
+        if v[0] == "l":
+            r = regroup(t[1], v[1])
+            return (("E", r[0], t[2]), ("l", r[1], t[2])) if r else None
+        r = regroup(t[2], v[2])
+        return (("E", t[1], r[0]), ("r", t[1], r[1])) if r else None
+    if k == "A" and t[2] >= 1:
+        rs = [regroup(t[1], x) for x in v[2]]
+        if all(rs):
+            return ("A", rs[0][0], t[2]), ("a", rs[0][0], tuple(r[1] for r in rs))
+    return None
+
+
 def cast_partners(t):
     """types with the same layout as t, by the documented equations (never t itself)"""
     out = []
